@@ -8,6 +8,7 @@ every orbital derivative applies the armed thrust (R3).  Does NOT decide the del
 from __future__ import annotations
 
 import ast
+import copy
 
 from rsa import orderings as O
 from rsa.cfg import cfg_of
@@ -583,6 +584,93 @@ def rule_r5(chk, p, t):
     C04.rule_r9(chk, p, t, rid="C15.R6", only=("ntw2eci",))
 
 
+LOSSY_TIME_OPS = {"round", "int", "floor", "ceil", "trunc", "around", "rint", "fix"}
+
+
+def rule_r7(chk, p, t, rid="C15.R7", events=(("finite_burn.ScheduledFiniteBurnEvent", "ScheduledFiniteBurn", ("start", "end")), ("finite_maneuver.ScheduledFiniteManeuverEvent", "ScheduledFiniteManeuver", ("start", "end")))):
+    """Times of a stored event reach the integration event un-quantised and in their own slots."""
+    from rsa.terms import inline_locals
+
+    r = chk.rule(
+        rid,
+        "configured event times reach the integrator un-quantised, each in its own slot",
+        len(events),
+        "in every handleEvent of a propagation-scope event the time arguments of the integration event it queues are "
+        "`JulianDate(self.start_time_jd | self.end_time_jd).convertToScenarioTime(<agent>.julian_date_start)` - the stored "
+        "Julian date of that very bound converted against the agent's own start date - with no rounding / truncating "
+        "operator (round, int, floor, //, % ...) anywhere on the way (helpers inlined): a burn configured with a "
+        "fractional-second offset thrusts over the interval it was given, not over one snapped to a grid; start feeds the "
+        "start slot and end the end slot",
+        "the 40 microsecond resolution of a double-precision Julian date",
+    )
+    for cq, ctor, slots in events:
+        ci = p.cls(f"resonaate.data.events.{cq}")
+        h = ci.methods.get("handleEvent")
+        cons = f"{ci.name}.handleEvent"
+        if h is None:
+            r.error(cons, "vanished anchor")
+            continue
+
+        def one(ci=ci, h=h, ctor=ctor, slots=slots, cons=cons):
+            scope = h.params[1]
+            calls = [c for c in walk_no_nested(h.node) if isinstance(c, ast.Call) and (call_name(c) == ctor or (ctor == "impulse" and isinstance(c.func, ast.Attribute) and c.func.attr == "impulse"))]
+            require(len(calls) == 1, f"{cons}: one `{ctor}(...)` construction expected", h.node)
+            c = calls[0]
+            bad = []
+            for i, which in enumerate(slots):
+                require(i < len(c.args), f"{cons}: time argument {i} missing", c)
+                e = inline_locals(h, c.args[i])
+                # inline single-return module-level helpers (e.g. a shared conversion helper)
+                for _ in range(3):
+                    changed = False
+                    for sub in list(ast.walk(e)):
+                        if isinstance(sub, ast.Call) and isinstance(sub.func, ast.Name):
+                            tg = [x for x in t.callees(sub, h) if hasattr(x, "node") and isinstance(x.node, ast.FunctionDef)]
+                            if len(tg) == 1 and tg[0].cls is None:
+                                rets = [x for x in walk_no_nested(tg[0].node) if isinstance(x, ast.Return) and x.value is not None]
+                                if len(rets) == 1 and len(tg[0].params) == len(sub.args) and not sub.keywords:
+                                    body = inline_locals(tg[0], rets[0].value)
+                                    m = dict(zip(tg[0].params, sub.args))
+
+                                    class S(ast.NodeTransformer):
+                                        def visit_Name(self, nn):
+                                            return copy.deepcopy(m[nn.id]) if nn.id in m else nn
+
+                                    new = S().visit(copy.deepcopy(body))
+
+                                    class R(ast.NodeTransformer):
+                                        def visit_Call(self, nn):
+                                            if nn is sub:
+                                                return new
+                                            return self.generic_visit(nn)
+
+                                    e = R().visit(e)
+                                    changed = True
+                                    break
+                    if not changed:
+                        break
+                lossy = sorted({call_name(x) for x in ast.walk(e) if isinstance(x, ast.Call) and call_name(x) in LOSSY_TIME_OPS} | {type(x.op).__name__ for x in ast.walk(e) if isinstance(x, ast.BinOp) and isinstance(x.op, (ast.FloorDiv, ast.Mod))})
+                # strip identity wrappers
+                core = e
+                while isinstance(core, ast.Call) and call_name(core) in ("ScenarioTime", "float") and len(core.args) == 1:
+                    core = core.args[0]
+                want = f"JulianDate(self.{which}_time_jd).convertToScenarioTime({scope}.julian_date_start)"
+                if lossy:
+                    bad.append(f"the {which} time passes through {lossy} (`{unparse(e)[:90]}`): a {which} configured with a fractional-second offset is moved to a whole second, so the thrust interval is not the configured one")
+                elif unparse(core) != want:
+                    other = "end" if which == "start" else "start"
+                    if unparse(core) == f"JulianDate(self.{other}_time_jd).convertToScenarioTime({scope}.julian_date_start)":
+                        bad.append(f"the {which} slot receives the event's {other} time")
+                    else:
+                        bad.append(f"the {which} time is `{unparse(core)[:90]}`, expected `{want}`")
+            if bad:
+                r.violation(cons, "event-time:" + ";".join(b[:60] for b in bad), f"{cons}: " + "; ".join(bad), h.loc(c))
+            else:
+                r.ok(cons, f"{ctor}({', '.join(slots)}) from the stored Julian dates, un-quantised", h.loc(c))
+
+        r.guard(cons, one)
+
+
 def run(chk, p, t):
     chk.explanation = (
         "Static decision of structural necessary conditions of C15: (R1) taint of the burn's end time through the "
@@ -594,7 +682,7 @@ def run(chk, p, t):
         "decided: the delivered delta-v."
     )
     chk.assumptions += ["scipy.integrate.solve_ivp stops only on sign changes of a terminal event function or at the end of t_span"]
-    for fn in (rule_r1, rule_r2, rule_r3, rule_r4, rule_r5):
+    for fn in (rule_r1, rule_r2, rule_r3, rule_r4, rule_r5, rule_r7):
         rid = "C15.R" + fn.__name__[-1]
         if not chk.wants(rid):
             continue
